@@ -723,9 +723,41 @@ def rule_R29_iter_copied(text, log):
 
 
 
+_R30_OPTION_SOURCES = re.compile(r'\.\s*(position|rposition|find|get|get_mut|pop_front|pop_back|pop|first|last|take|checked_\w+)\s*\(|\bvx_it_r?position\b')
+
+
+def _r30_is_option(out, mask, rs, recv):
+    """the receiver of `and_then` is an Option when it is (or is a local bound to) the result of a std operation that
+    returns one (`position`, `find`, `get`, `pop_front`, ...); everything else is read as a Result"""
+    r = recv.strip()
+    if _R30_OPTION_SOURCES.search(r):
+        return True
+    if re.match(r'^[A-Za-z_]\w*$', r):
+        last = None
+        for m in re.finditer(r'\blet\s+(?:mut\s+)?%s\s*(?::[^=;]+)?=' % re.escape(r), out[:rs]):
+            if mask[m.start()]:
+                last = m
+        if last:
+            k = last.end()
+            depth = 0
+            while k < rs:
+                c = out[k]
+                if mask[k]:
+                    if c in '([{':
+                        depth += 1
+                    elif c in ')]}':
+                        depth -= 1
+                    elif c == ';' and depth <= 0:
+                        break
+                k += 1
+            return bool(_R30_OPTION_SOURCES.search(out[last.end():k]))
+    return False
+
+
 def rule_R30_and_then(text, log):
-    """`RES.and_then(|P| B)` -> `(match RES { Ok(P) => B, Err(vx_e) => Err(vx_e) })` (definition of Result::and_then; a receiver
-    that is not a Result makes the rewritten text ill-typed, which is reported as "outside the subset")"""
+    """`RES.and_then(|P| B)` -> `(match RES { Ok(P) => B, Err(vx_e) => Err(vx_e) })` (definition of Result::and_then), or
+    `(match OPT { Some(P) => B, None => None })` when the receiver is recognisably an Option (see _r30_is_option); a receiver of the
+    other kind makes the rewritten text ill-typed, which is reported as "outside the subset")"""
     out = text
     rx = re.compile(r'\.\s*and_then\s*\(\s*\|')
     while True:
@@ -741,7 +773,10 @@ def rule_R30_and_then(text, log):
         body = clo[j + 1:].strip()
         rs = _recv_start(out, mask, mm.start())
         recv = out[rs:mm.start()]
-        new = '(match %s { Ok(%s) => %s, Err(vx_e) => Err(vx_e) })' % (recv, pat, body)
+        if _r30_is_option(out, mask, rs, recv):
+            new = '(match %s { Some(%s) => %s, None => None })' % (recv, pat, body)
+        else:
+            new = '(match %s { Ok(%s) => %s, Err(vx_e) => Err(vx_e) })' % (recv, pat, body)
         pad = '\n' * max(0, out[rs:cl + 1].count('\n') - new.count('\n'))
         log.append(('R30', norm_ws(out[rs:cl + 1])[:120], norm_ws(new)[:160]))
         out = out[:rs] + new + pad + out[cl + 1:]
@@ -769,7 +804,7 @@ def _closure_parts(arg):
     raise Unsupported('R31: predicate argument is neither a closure nor a path')
 
 
-def rule_R31_iter_predicates(text, log):
+def rule_R31_iter_predicates(text, log, deque=False):
     """`S.iter().position(P)` / `.rposition(P)` / `.any(P)` / `.all(P)` / `S.iter().enumerate().position(P)`
        -> `vx_it_position(&S, |vx_e| -> (vx_r: bool) ensures vx_r == ({ let PAT = vx_e; BODY }) { let PAT = vx_e; BODY })` etc.
     The prelude functions are loops verified against the predicate's own contract; the predicate's body is the repository's,
@@ -803,8 +838,14 @@ def rule_R31_iter_predicates(text, log):
         req = ''
         if enum:
             req = ' requires vx_e.0 < (&%s).len()' % recv
-        fn = 'vx_it_enum_position' if enum else 'vx_it_' + kind
-        new = '%s(&%s, |vx_e| -> (vx_r: bool)%s ensures vx_r == (%s) %s)' % (fn, recv, req, expr, expr if expr.startswith('{') else '{ %s }' % expr)
+        fn = 'vx_it_enum_position' if enum else ('vx_dq_' if deque else 'vx_it_') + kind
+        # the `ensures` restates the body as a specification expression: std map/set look-ups are read through the view
+        def _spec_lookup(m):
+            a = m.group(3).strip()
+            a = a[1:].strip() if a.startswith('&') else '*' + a
+            return '%s@.%s(%s)' % (m.group(1), 'contains_key' if m.group(2) == 'contains_key' else 'contains', a)
+        sexpr = re.sub(r'((?:self\.)?[A-Za-z_][\w.]*)\.(contains_key|contains)\(\s*(&?\s*[A-Za-z_]\w*)\s*\)', _spec_lookup, expr)
+        new = '%s(&%s, |vx_e| -> (vx_r: bool)%s ensures vx_r == (%s) %s)' % (fn, recv, req, sexpr, expr if expr.startswith('{') else '{ %s }' % expr)
         pad = '\n' * max(0, out[rs:cl + 1].count('\n') - new.count('\n'))
         log.append(('R31', norm_ws(out[rs:cl + 1])[:120], norm_ws(new)[:200]))
         out = out[:rs] + new + pad + out[cl + 1:]
@@ -1435,7 +1476,7 @@ class Unit(object):
                 text = rule_R33_cmp_min_max(text, log)
             if 'R31' in self.rules:
                 text = rule_R32_or_else(text, log)
-                text = rule_R31_iter_predicates(text, log)
+                text = rule_R31_iter_predicates(text, log, deque='R31dq' in self.rules)
         self.last_guard_renames = [r[3] for r in log if len(r) > 3]
         for r in log:
             self.rule_log.append({'rule': r[0], 'before': r[1], 'after': r[2], 'where': ctx})
